@@ -1,16 +1,18 @@
 """C12 - schedulers are work-conserving, non-preemptive, rate-exact and per-flow FIFO (all six schedulers + Monitor).
 
 The multi-queue family (SP, RR, WRR, DRR) is replayed through the MultiQueueServer LTS, the stamp family (WFQ,
-VirtualClock) through the StampServer LTS; each family brings its own direct oracles."""
-from harness import c12_mq, c12_stamp
+VirtualClock) through the StampServer LTS; each family brings its own direct oracles.  A third, oracle-only family
+(harness/c12_frac.py) restates the counter / Monitor clause on packet sizes that are not whole numbers, for all six."""
+from harness import c12_mq, c12_stamp, c12_frac
 
-ASSUMPTIONS = sorted(set(getattr(c12_mq, 'ASSUMPTIONS', []) + getattr(c12_stamp, 'ASSUMPTIONS', [])))
+ASSUMPTIONS = sorted(set(getattr(c12_mq, 'ASSUMPTIONS', []) + getattr(c12_stamp, 'ASSUMPTIONS', []) + c12_frac.ASSUMPTIONS))
 TRUSTED_EXTRA = sorted(set(getattr(c12_mq, 'TRUSTED_EXTRA', []) + getattr(c12_stamp, 'TRUSTED_EXTRA', [])))
 
 
 def run(ctx):
     a = c12_mq.run_family(ctx)
     b = c12_stamp.run_family(ctx)
+    f = c12_frac.run_family(ctx)        # oracle-only: counters and Monitor samples on non-integer packet sizes (outside the Lean replay)
     cov = {}
     ca, cb = a.get('coverage', {}), b.get('coverage', {})
     for k in ('evaluations', 'distinct_nontrivial', 'traces_validated_against_impl'):
@@ -19,6 +21,7 @@ def run(ctx):
     cov['samples'] = list(ca.get('samples', []))[:1] + list(cb.get('samples', []))[:1]
     cov['multi_queue_family'] = {k: v for k, v in ca.items() if k not in ('samples',)}
     cov['stamp_family'] = {k: v for k, v in cb.items() if k not in ('samples',)}
+    cov['fractional_size_family_oracle_only'] = f.get('coverage', {})      # counted apart: not part of `evaluations` / the correspondence
     return {'coverage': cov,
             'disagreements': a.get('disagreements', []) + b.get('disagreements', []),
-            'oracle_failures': a.get('oracle_failures', []) + b.get('oracle_failures', [])}
+            'oracle_failures': a.get('oracle_failures', []) + b.get('oracle_failures', []) + f.get('oracle_failures', [])}
